@@ -319,7 +319,7 @@ def work(states, extra):
                 continue
             r, l = req[c], lval[c]
             off = set(tlaset(r['off']))
-            undisp = bool(r['mustErr'] and l['st'] != 'unknown' and not (off & set(tlaset(l['vis']))))
+            undisp = bool(r['mustErr'] and not (off & set(tlaset(l['vis']))))
             key = (c, bool(r['mustErr']), undisp, o['st'], o['ex'], tuple(o['ty']), tuple(o['eff']))
             p = res['pairs'].get(key)
             if p is None:
@@ -435,10 +435,12 @@ def run(v, pid, classes, configs, loader_names):
     for name, t in tables.items():
         spec = SPEC_TABLES[t['cls']]
         for kind in ('exact', 'multi'):
-            if sorted(t[kind]) != sorted(spec[kind]) or (kind == 'multi' and t[kind] != spec[kind]):
+            mine = {b for b in t[kind] if b in extra_text and extra_text[b].startswith('!verif_')}     # customise()
+            live = [b for b in t[kind] if b not in mine]
+            if sorted(live) != sorted(spec[kind]) or (kind == 'multi' and live != spec[kind]):
                 v.note('spec-drift %s: %s.%s table differs from Construct.tla: live-only %s, spec-only %s%s' % (
-                    pid, name, kind, sorted(set(t[kind]) - set(spec[kind])), sorted(set(spec[kind]) - set(t[kind])),
-                    '' if sorted(t[kind]) != sorted(spec[kind]) else ' (order differs)'))
+                    pid, name, kind, sorted(set(live) - set(spec[kind])), sorted(set(spec[kind]) - set(live)),
+                    '' if sorted(live) != sorted(spec[kind]) else ' (order differs)'))
             for b in t[kind]:
                 if b.startswith('x'):
                     extra[t['cls']].add(b)
@@ -457,7 +459,8 @@ def run(v, pid, classes, configs, loader_names):
     unsafe_eff = 0
     for name, consts in configs:
         consts = dict(consts)
-        consts['LeafBases'] = consts['LeafBases'] + allextra
+        if consts['MaxNodes'] <= 2 and consts['MaxEntries'] == 1 or consts['MaxNodes'] == 1:
+            consts['LeafBases'] = consts['LeafBases'] + allextra     # live-only tags join the full-vocabulary configurations
         k = {a: (tla_set(b) if isinstance(b, list) else b) for a, b in consts.items()}
         k.update({'ExtraBase': tla_set(sorted(extra['Base'])), 'ExtraSafe': tla_set(sorted(extra['Safe'])),
                   'ExtraFull': tla_set(sorted(extra['Full'])), 'ExtraUnsafe': tla_set(sorted(extra['Unsafe'])),
